@@ -34,6 +34,7 @@ EXPLANATION = (
     "default threshold 0 demotes nothing (shared with C13-H1); (V6) every caller-settable setting read by the pipeline is part of the "
     "cache key at the time the key is computed, so a batch demoted (and left edited) under a raised threshold is never served to a "
     "default-threshold run (shared with C12-K1)."
+    ' (V7) every default of the confidence threshold is 0 (Balancer constructor, run command line); (V8) after the MCS stage an issue is written only to rows that are unsolved or demoted in the same branch; V1 judges a restore of saved text like the writer whose text it saved.'
 )
 ASSUMPTIONS = [
     "rows do not pre-populate the tool's own output columns (precondition of the property)",
